@@ -54,6 +54,8 @@ func main() {
 		os.Exit(cmdAnalyse(os.Args[2:]))
 	case "manifest":
 		os.Exit(cmdManifest())
+	case "inventory":
+		os.Exit(cmdInventory())
 	default:
 		fmt.Fprintln(os.Stderr, "unknown command", os.Args[1])
 		os.Exit(2)
